@@ -317,6 +317,11 @@ func lowerCandidates(c *Case) [][2]string {
 	for _, e := range c.Env {
 		add(e.V)
 	}
+	for _, sv := range c.SetVals {
+		for _, v := range sv.Vals {
+			add(v)
+		}
+	}
 	var out [][2]string
 	for k := range seen {
 		if l := strings.ToLower(k); l != asciiLower(k) {
